@@ -77,10 +77,13 @@ type stats struct {
 	OpsPtrs    int            `json:"distinct_operator_x_pointer"`
 	Operators  int            `json:"distinct_operators"`
 	Seeds      int            `json:"valid_seeds"`
+	WallMs     int64          `json:"wall_ms"`
+	SlowestMs  int64          `json:"slowest_call_ms"`
 	PanicSites map[string]int `json:"panic_sites,omitempty"`
 	opsPtrs    map[string]struct{}
 	operators  map[string]struct{}
 	aborted    bool
+	SlowestOps []string `json:"slowest_call_mutations,omitempty"`
 }
 
 type harness struct {
@@ -292,8 +295,17 @@ func (h *harness) one(e *entry, st *stats, in input) {
 		before = e.digest()
 	}
 	h.alone.RLock()
+	t0 := time.Now()
 	o := guarded(func() error { return e.call(in) }, watchdog)
+	el := time.Since(t0).Milliseconds()
 	h.alone.RUnlock()
+	st.mu.Lock()
+	st.WallMs += el
+	if el > st.SlowestMs {
+		st.SlowestMs = el
+		st.SlowestOps = in.ops
+	}
+	st.mu.Unlock()
 	fingerprint := e.name + "|" + strings.Join(in.ops, "+")
 	switch {
 	case o.panicked:
